@@ -24,7 +24,9 @@ from .source import AnalysisError, ClassInfo, FuncInfo, ModuleInfo, norm, const_
 
 MUTATING_METHODS = {"update", "pop", "popitem", "append", "extend", "clear", "sort", "setdefault", "insert", "remove",
                     "fill", "sortby", "resize", "put", "itemset", "reverse", "partition", "add", "discard", "byteswap",
-                    "__setitem__", "__delitem__", "__iadd__", "__isub__", "__imul__", "__itruediv__", "set_units"}
+                    "__setitem__", "__delitem__", "__iadd__", "__isub__", "__imul__", "__itruediv__", "set_units",
+                    # pint's in-place conversions of a Quantity
+                    "ito", "ito_base_units", "ito_reduced_units", "ito_root_units", "ito_preferred"}
 IMMUTABLE_ANNOT = {"str", "bool", "int", "float", "complex", "bytes"}
 # library functions whose result is (or may be) a view of / the same object as one of their arguments
 ALIASING_LIB = {"numpy.asarray": 0, "numpy.asanyarray": 0, "numpy.atleast_1d": 0, "numpy.atleast_2d": 0, "numpy.ravel": 0,
@@ -38,10 +40,11 @@ EMPTY = frozenset()
 
 
 class Obj:
-    __slots__ = ("kind", "label", "cls", "exempt", "children", "depth")
+    __slots__ = ("kind", "label", "cls", "exempt", "children", "depth", "scalar")
 
-    def __init__(self, kind, label, cls=None, exempt=False, depth=0):
+    def __init__(self, kind, label, cls=None, exempt=False, depth=0, scalar=False):
         self.kind, self.label, self.cls, self.exempt = kind, label, cls, exempt
+        self.scalar = scalar
         self.children = {}
         self.depth = depth
 
@@ -50,7 +53,7 @@ class Obj:
             return self
         c = self.children.get(key)
         if c is None:
-            c = Obj(self.kind, self.label, None, self.exempt, self.depth + 1)
+            c = Obj(self.kind, self.label, None, self.exempt, self.depth + 1, self.scalar)
             self.children[key] = c
         return c
 
@@ -61,7 +64,7 @@ class Obj:
         key = ("type", cls.qual)
         c = self.children.get(key)
         if c is None:
-            c = Obj(self.kind, self.label, cls, self.exempt, self.depth)
+            c = Obj(self.kind, self.label, cls, self.exempt, self.depth, self.scalar)
             c.children = self.children
             self.children[key] = c
         return c
@@ -180,7 +183,7 @@ class OriginAnalysis:
         env.heap[(o, key)] = env.heap.get((o, key), EMPTY) | value
 
     def mutate(self, val, fi, node, what):
-        bad = {o for o in val if o.kind in ("param", "global") and not o.exempt}
+        bad = {o for o in val if o.kind in ("param", "global") and not o.exempt and not (o.scalar and "in-place operator" in what)}
         if bad:
             self.report(fi, node, what, bad)
 
@@ -201,7 +204,9 @@ class OriginAnalysis:
         for p in a.posonlyargs + a.args + a.kwonlyargs:
             ann = norm(p.annotation) if p.annotation is not None else ""
             if ann in IMMUTABLE_ANNOT:
-                env.names[p.arg] = EMPTY
+                # annotated as a plain number / string: `x += 1` rebinds the local name and is no mutation - but a catalogued mutating METHOD
+                # called on it (limit.ito(...), x.sort()) shows that another kind of object is accepted there, and changes the caller's
+                env.names[p.arg] = frozenset([Obj("param", p.arg, None, exempt=p.arg in self.exempt_params, scalar=True)])
                 continue
             if data_params is not None and p.arg not in data_params and p.arg not in self.exempt_params:
                 env.names[p.arg] = EMPTY
@@ -759,6 +764,16 @@ class _Walker(FlowWalker):
             for k, v in kwargs.items():
                 self.an.add_field(o, k, v, env)
             return frozenset([o])
+        if name and name.startswith("numpy.") and isinstance(node, ast.Call) and \
+                any(k.arg == "copy" and isinstance(k.value, ast.Constant) and k.value.value is False for k in node.keywords):
+            # numpy.ma.masked_*(a, ..., copy=False) / numpy.nan_to_num(a, copy=False) / numpy.array(a, copy=False): works on the
+            # operand's own buffer (masks or replaces entries in place) and returns a view of it
+            src = EMPTY
+            for a in args[:2]:
+                src |= a
+            if not name.endswith((".array", ".asarray", ".asanyarray", ".astype")):
+                self.an.mutate(src, self.fi, node, "in-place library operation (copy=False)")
+            return frozenset([o]) | src
         if name in ALIASING_LIB:
             idx = ALIASING_LIB[name]
             first = args[idx] if len(args) > idx else EMPTY
